@@ -23,6 +23,8 @@
 (*                    on themselves                                  (C07) *)
 (*   layout-from-sort the index maps are the ones the recorded sort of the  *)
 (*                    complete graph determines                 (C04, C12) *)
+(*   return-order     a functional (JAX) return lists _values_0.._values_n-1 *)
+(*                    in slot order                              (C03, C13) *)
 (*   lengths          at return the written slots are exactly 0..n-1 and   *)
 (*                    the declared number of returned entries is n   (C03) *)
 (* A failing rule does not stop the trace: it is recorded and the rest of  *)
@@ -101,6 +103,7 @@ RuleFails(ev) ==
   \cup (IF ev.k = "store" /\ T.needs_alloc /\ "values" \notin defined THEN {"store-before-alloc"} ELSE {})
   \cup (IF ev.k = "return" /\ T.expect_n >= 0 /\ ~(ToSet(stored) = 0..(T.expect_n - 1) /\ Len(stored) = T.expect_n) THEN {"lengths-stored"} ELSE {})
   \cup (IF ev.k = "return" /\ T.expect_n >= 0 /\ ev.nret >= 0 /\ ev.nret # T.expect_n THEN {"lengths-returned"} ELSE {})
+  \cup (IF ev.k = "return" /\ ~(\A i \in 1..Len(ev.rets) : ev.rets[i] = "_values_" \o ToString(i - 1)) THEN {"return-order"} ELSE {})
   \cup (IF ev.k = "other" THEN {"unknown-statement"} ELSE {})
   \cup (IF l = 1 /\ ~LayoutFromSortOk THEN {"layout-from-sort"} ELSE {})
 
